@@ -19,7 +19,9 @@ From LMPwm Require Import GenComplement PwmModel PwmProofs PwmExact.
 From LMPwm Require C09 C10.
 From LMDist Require DistModel DistInst DistTail C11.
 From LMTfm Require TfmNum TfmModel TfmSpec TfmProofs TfmLink C12 C13.
-From LME2E Require Import E2EStatBridge E2EStatRevcomp E2EStatChain E2EStatProofs.
+From LMBase Require Import IEEE.
+From LMIo Require IoBase IoNom IoJaspar IoPrint.
+From LME2E Require Import E2EStatBridge E2EStatRevcomp E2EStatChain E2EStatProofs E2EStatScan E2EStatIo.
 Import ListNotations.
 Local Open Scope nat_scope.
 
@@ -191,6 +193,88 @@ Proof.
   apply Forall_map. apply Forall_forall. intros i _. now rewrite map_length, seq_length.
 Qed.
 
+(* ================= (2) scanning with a threshold derived from a p-value ================= *)
+
+(* Setting of both theorems: an exact scoring matrix [sm] (finite symbol cells), background [bg]
+   without wildcard mass, T = exact tail over C01's score_def; a text [sq] without wildcard; the
+   binary32 scanner's hit list H as E2E.e2e_text_to_hits characterises it ((i, x) in H  <->  position
+   i valid, its binary32 score sd32 i >= thr, x = sd32 i).  PARTIAL: the link between binary32 and
+   exact arithmetic is taken as two hypotheses,
+     L1  sd32 i >= thr in binary32  <->  tq <= val (sd32 i)      (order embedding; true for finite floats
+                                                                   with val = the float's rational value)
+     L2  | val (sd32 i) - exact score of the window at i | <= eps  (summation error; C01_fsum_error_bound
+                                                                   gives it over the reals)
+   what is missing is their transport from Flocq's reals to Q.  [window M i sq] = the M symbols at i. *)
+
+(* MEME threshold t = ScoreDistribution::score(p), 0 < p < 1 (C11 round trip + brackets): every
+   accepted position has an exact score s >= t - eps and exact tail T(s + eps + dd) <= p, i.e. its
+   tail probability exceeds p by at most the mass of the scores in [s, s + eps + dd).  Every
+   rejected position scores below t + eps.  Also PARTIAL because coq/dist does not prove that
+   score(p) is the LEAST such threshold: nothing is said about how small the tail of a rejected
+   position can be. *)
+Theorem stat_threshold_scan_meme_partial :
+  forall (K : nat) (sm : list (list (option Q))) (bg : list Q) d offset scale p tq
+         (sq : list nat) (sd32 : nat -> F32.t) (thr : F32.t) (H : list (nat * F32.t)) (val : F32.t -> Q) (eps : Q),
+    2 <= K -> sym_finite K sm -> length bg = K -> (last bg 0 == 0)%Q ->
+    DT.bg_nonneg bg -> (DI.Qsum bg <= 1)%Q ->
+    DMo.build DI.QOps (dmat sm) bg = Ok d -> DMo.stage_a DI.QOps (dmat sm) = Ok (offset, scale) ->
+    (Z.of_nat (length sm) * 1000 < DMo.i32_max)%Z ->
+    (0 < p)%Q -> (p < 1)%Q -> DMo.d_score DI.QOps d p = Ok tq ->
+    (forall i x, In (i, x) H <-> i + length sm <= length sq /\ F32.ge (sd32 i) thr = true /\ x = sd32 i) ->
+    Forall (fun a => a < K - 1) sq ->
+    (forall i, i + length sm <= length sq -> (F32.ge (sd32 i) thr = true <-> (tq <= val (sd32 i))%Q)) ->
+    (forall i s, i + length sm <= length sq -> score_c01 K sm (window (length sm) i sq) = Some s ->
+                 (Qabs.Qabs (val (sd32 i) - s) <= eps)%Q) ->
+    let dd := ((inject_Z (Z.of_nat (length sm)) / 2 + 1) / scale)%Q in
+    (forall i x, In (i, x) H ->
+       exists s, score_c01 K sm (window (length sm) i sq) = Some s /\ (tq - eps <= s)%Q /\
+                 (tail_c01 K sm bg (s + eps + dd) <= p)%Q) /\
+    (forall i, i + length sm <= length sq -> (forall x, ~ In (i, x) H) ->
+       exists s, score_c01 K sm (window (length sm) i sq) = Some s /\ (s < tq + eps)%Q).
+Proof.
+  intros K sm bg d offset scale p tq sq sd32 thr H val eps HK Hsm Hbg Hlast Hnn Hle Hd Hs Hlen Hp0 Hp1 Ht
+         Hhits Hsyms L1 L2 dd.
+  assert (Hrows : Forall (fun row : list (option Q) => length row = K) sm)
+    by (eapply Forall_impl; [|exact Hsm]; intros r (E & _); exact E).
+  assert (Hnn' : forall b, In b bg -> (0 <= b)%Q) by (intros b Hb; unfold DT.bg_nonneg in Hnn; rewrite Forall_forall in Hnn; auto).
+  pose proof (meme_threshold K sm bg d offset scale p tq Hrows Hbg Hnn Hle Hd Hs Hlen Hp0 Hp1 Ht) as Hthr.
+  split.
+  - exact (hits_tail K sm bg HK Hsm Hbg Hlast Hnn' sq sd32 thr H Hhits Hsyms val tq eps L1 L2 p dd Hthr).
+  - exact (rejected_below K sm bg HK Hsm Hbg sq sd32 thr H Hhits Hsyms val tq eps L1 L2).
+Qed.
+
+(* TFM-PVALUE threshold t = the score of an Iteration of approximate_score(p), d = (M+2) granularity
+   (C13, both clauses): accepted positions have T(s + eps + d) <= p; every rejected position scores
+   below t + eps, and if it is rejected by more than the margin (s < t - d) its exact tail at slack
+   d is at least p: no position whose tail T(s - d) is below p lies more than d under the threshold. *)
+Theorem stat_threshold_scan_tfm_partial :
+  forall (K : nat) (sm : list (list (option Q))) (bg : list Q) perm p steps win it
+         (sq : list nat) (sd32 : nat -> F32.t) (thr : F32.t) (H : list (nat * F32.t)) (val : F32.t -> Q) (eps : Q),
+    sym_finite K sm -> TP.matrix_ok K (trows sm) bg ->
+    2 <= length sm -> Permutation perm (seq 0 (length sm)) -> (0 < p)%Q -> (p <= 1)%Q ->
+    TM.score_window0 LMTfm.TfmNum.NumQ (trows sm) perm = Ok win ->
+    In (Ok it) (TM.sc_run LMTfm.TfmNum.NumQ steps (trows sm) perm bg p (1 # 10) win) ->
+    let tq := TM.io_score it in
+    let d := ((inject_Z (Z.of_nat (length sm)) + 2) * TM.io_gran it)%Q in
+    (forall i x, In (i, x) H <-> i + length sm <= length sq /\ F32.ge (sd32 i) thr = true /\ x = sd32 i) ->
+    Forall (fun a => a < K - 1) sq ->
+    (forall i, i + length sm <= length sq -> (F32.ge (sd32 i) thr = true <-> (tq <= val (sd32 i))%Q)) ->
+    (forall i s, i + length sm <= length sq -> score_c01 K sm (window (length sm) i sq) = Some s ->
+                 (Qabs.Qabs (val (sd32 i) - s) <= eps)%Q) ->
+    (forall i x, In (i, x) H ->
+       exists s, score_c01 K sm (window (length sm) i sq) = Some s /\ (tq - eps <= s)%Q /\
+                 (tail_c01 K sm bg (s + eps + d) <= p)%Q) /\
+    (forall i, i + length sm <= length sq -> (forall x, ~ In (i, x) H) ->
+       exists s, score_c01 K sm (window (length sm) i sq) = Some s /\ (s < tq + eps)%Q /\
+                 ((s < tq - d)%Q -> (p <= tail_c01 K sm bg (s - d))%Q)).
+Proof.
+  intros K sm bg perm p steps win it sq sd32 thr H val eps Hsm Hok HM Hperm Hp0 Hp1 Hwin Hin tq d Hhits Hsyms L1 L2.
+  destruct (tfm_threshold K sm bg perm p steps win it Hsm Hok HM Hperm Hp0 Hp1 Hwin Hin) as (Hc1 & Hc2).
+  fold tq d in Hc1, Hc2.
+  destruct Hok as (HK & _ & Hbg & Hnn & _ & Hlast).
+  exact (tfm_threshold_scan K sm bg HK Hsm Hbg Hlast Hnn sq sd32 thr H Hhits Hsyms val tq eps L1 L2 p d Hc1 Hc2).
+Qed.
+
 (* ================= (3) reverse complement ================= *)
 
 (* the exact tail of the reverse-complemented matrix (C10's dna_rc) under the complemented
@@ -228,6 +312,42 @@ Proof.
   rewrite !(tail_c01_dist 5 _ bg _ Hr Hb). exact H.
 Qed.
 
+(* ================= (4) counts through a file ================= *)
+
+(* A DNA count matrix (M >= 1 rows of 5 counts <= u32::MAX) printed as a JASPAR 2016 record with any
+   admissible layout, identifier and description, preceded by any bytes without '>' and followed by
+   white space, read through ANY chunking with ANY buffer capacities by the reader model of coq/io
+   (C14's round-trip theorem): exactly one record, whose matrix IS the count matrix (io's rmatrix and
+   pwm's cmatrix are the same type: no conversion), then End.  Hence every result of the pipeline
+   (conversion chain, both p-value methods, thresholds) is the same for the file as for the counts. *)
+Theorem stat_io_roundtrip :
+  forall (y : LMIo.IoPrint.style) (id : list N) (desc : option (list N)) (counts : list (list N))
+         (caps : nat -> nat) (prefix suffix : list N) (s : LMIo.IoBase.stream),
+    LMIo.IoPrint.wf_style y = true -> LMIo.IoPrint.wf_id id = true -> LMIo.IoPrint.wf_desc desc = true ->
+    counts_ok counts ->
+    LMIo.IoPrint.wf_prefix prefix = true -> LMIo.IoPrint.wf_suffix suffix = true -> LMIo.IoBase.wf_stream s ->
+    LMIo.IoBase.stream_bytes s =
+      LMIo.IoPrint.print_file LMIo.IoPrint.print_jaspar16 prefix [(y, src_of id desc counts)] suffix ->
+    exists r,
+      LMIo.IoJaspar.jaspar16_read LMIo.IoJaspar.Dna caps s = [Ok (Some r); Ok None] /\
+      LMIo.IoJaspar.rmatrix r = counts /\ LMIo.IoJaspar.rid r = id /\ LMIo.IoJaspar.rdesc r = desc /\
+      count_new (LMIo.IoJaspar.rmatrix r) = count_new counts /\
+      forall (flog2 flog10 fln : xq -> xq) (pseudo bg : list Qc),
+        sm flog2 flog10 fln pseudo bg (LMIo.IoJaspar.rmatrix r) = sm flog2 flog10 fln pseudo bg counts.
+Proof.
+  intros y id desc counts caps prefix suffix s Hy Hid Hdesc Hok Hpre Hsuf Hs Hbytes.
+  destruct (counts_roundtrip y id desc counts caps prefix suffix s Hy Hid Hdesc Hok Hpre Hsuf Hs Hbytes)
+    as (r & Hr & Hm & Hi & Hd).
+  exists r. split; [exact Hr|]. split; [exact Hm|]. split; [exact Hi|]. split; [exact Hd|].
+  rewrite Hm. split; [reflexivity|]. intros. reflexivity.
+Qed.
+
+(* the decimal printer used for the counts is inverted by the readers' digit-string value *)
+Theorem stat_dec_of_inverse :
+  forall n : N, (n <= LMIo.IoNom.u32_max)%N ->
+    LMIo.IoPrint.dec_value (dec_of n) = n /\ LMIo.IoPrint.wf_count (dec_of n) = true.
+Proof. intros n Hn. split; [exact (dec_value_dec_of n Hn)|exact (wf_count_dec_of n Hn)]. Qed.
+
 (* ================= statement pins ================= *)
 
 Check (fun K sm bg t => eq_refl :
@@ -237,3 +357,134 @@ Check (fun K sm bg t => eq_refl :
                          | None => 0%Q
                          end) (DI.all_words K (length sm)))).
 Check (fun K sm w => eq_refl : score_c01 K sm w = SCO.score_def oadd (Some 0%Q) (K - 1) sm w 0).
+
+(* ================= non-vacuity: a small concrete motif ================= *)
+
+(* three count rows over DNA, Pseudocounts::from(1), the uniform background (wildcard 0); the
+   logarithm is replaced by a rational surrogate with the two properties the theorems use
+   (any function with log(0) = -inf and finite values on positive arguments will do) *)
+Module StatEx.
+  Definition lg (x : xq) : xq :=
+    match x with Some q => if Qc_ltb 0 q then Some (q - 1)%Qc else None | None => None end.
+  Definition counts : list (list N) := [[3; 1; 0; 0; 0]; [0; 2; 1; 1; 0]; [1; 1; 1; 1; 0]]%N.
+  Definition pseudo : list Qc := pseudo_scalar Qcops 5 (Q2Qc 1).
+  Definition bg : list Qc := map Q2Qc [1 # 4; 1 # 4; 1 # 4; 1 # 4; 0]%Q.
+  Definition S : list (list (option Q)) := sm lg lg lg pseudo bg counts.
+  Definition B : list Q := bgQ bg.
+  Definition qr (x : option Q) : option Q := option_map Qred x.
+End StatEx.
+
+Example stat_example_log :
+  StatEx.lg (Some 0%Qc) = None /\ (forall x : Qc, (0 < x)%Qc -> StatEx.lg (Some x) <> None).
+Proof.
+  split; [reflexivity|]. intros x Hx. unfold StatEx.lg. apply Qc_ltb_lt in Hx. rewrite Hx. discriminate.
+Qed.
+
+(* every hypothesis of stat_motif_pipeline / stat_motif_pipeline_score holds *)
+Example stat_example_hypotheses :
+  2 <= 5 /\ length StatEx.pseudo = 5 /\ length StatEx.bg = 5 /\
+  Forall (fun r : list N => length r = 5) StatEx.counts /\
+  Forall (fun p => (0 <= p)%Qc) StatEx.pseudo /\ (forall k, k < 5 - 1 -> (0 < nth k StatEx.pseudo 0)%Qc) /\
+  Forall (fun f => (Q2Qc 0 <= f)%Qc /\ (f <= Q2Qc 1)%Qc) StatEx.bg /\ Qcsum StatEx.bg = Q2Qc 1 /\
+  (forall k, k < 5 - 1 -> (0 < nth k StatEx.bg 0)%Qc) /\ nth (5 - 1) StatEx.bg 0%Qc = 0%Qc /\
+  2 <= length StatEx.counts /\ (Z.of_nat (length StatEx.counts) * 1000 < DMo.i32_max)%Z.
+Proof.
+  assert (Hc : (0 < Q2Qc 1)%Qc) by reflexivity.
+  destruct (pseudo_scalar_ok 5 (Q2Qc 1) Hc) as (P1 & P2 & P3).
+  split; [lia|]. split; [exact P1|]. split; [reflexivity|]. split; [repeat constructor|].
+  split; [exact P2|]. split; [exact P3|]. split.
+  { unfold StatEx.bg. cbn [map]. repeat (constructor; [split; vm_compute; discriminate|]). constructor. }
+  split; [apply Qc_is_canon; vm_compute; reflexivity|]. split.
+  { intros k Hk. do 4 (destruct k as [|k]; [reflexivity|]). lia. }
+  split; [reflexivity|]. split; [cbn; lia|reflexivity].
+Qed.
+
+(* hence its conclusion, instantiated *)
+Example stat_example_pipeline :
+  let T := tail_c01 5 StatEx.S StatEx.B in
+  (forall t, (T t == DI.tail_exact (dmat StatEx.S) StatEx.B t)%Q /\ (T t == TL.Ptail (trows StatEx.S) StatEx.B t)%Q) /\
+  TP.matrix_ok 5 (trows StatEx.S) StatEx.B /\
+  exists d offset scale, DMo.build DI.QOps (dmat StatEx.S) StatEx.B = Ok d /\
+                         DMo.stage_a DI.QOps (dmat StatEx.S) = Ok (offset, scale).
+Proof.
+  destruct stat_example_log as (L0 & Lp).
+  destruct stat_example_hypotheses as (H1 & H2 & H3 & H4 & H5 & H6 & H7 & H8 & H9 & H10 & H11 & H12).
+  destruct (stat_motif_pipeline StatEx.lg StatEx.lg StatEx.lg 5 StatEx.pseudo StatEx.bg StatEx.counts
+              L0 Lp H1 H2 H3 H4 H5 H6 H7 H8 H9 H10 H11 H12) as (_ & (_ & _ & Hok & Hb) & Ht & _).
+  cbv zeta. split; [exact Ht|]. split; [exact Hok|exact Hb].
+Qed.
+
+(* what the models compute there: the matrix (finite symbol cells, -inf wildcard column); the exact
+   tail on a grid of scores; the MEME-style table (scale 500, offset -1, 3001 entries); at s = 1/2 both
+   methods return exactly the exact tail 5/16 (TFM-PVALUE converges at granularity 1/10) *)
+Example stat_example_values :
+  map (map StatEx.qr) StatEx.S =
+    [[Some 1; Some 0; Some (-1 # 2); Some (-1 # 2); None];
+     [Some (-1 # 2); Some (1 # 2); Some 0; Some 0; None];
+     [Some 0; Some 0; Some 0; Some 0; None]]%Q /\
+  map (fun t => Qred (tail_c01 5 StatEx.S StatEx.B t)) [0; 1 # 4; 1 # 2; 3 # 4; 1; 3 # 2; 2]%Q
+    = [9 # 16; 5 # 16; 5 # 16; 3 # 16; 3 # 16; 1 # 16; 0]%Q /\
+  DMo.stage_a DI.QOps (dmat StatEx.S) = Ok ((-1)%Q, 500%Q) /\
+  match DMo.build DI.QOps (dmat StatEx.S) StatEx.B with
+  | Ok d => length (DMo.d_sf d) = 3001 /\
+            match DMo.d_pvalue DI.QOps d (1 # 2) with Ok p => Qred p = (5 # 16)%Q | _ => False end
+  | _ => False
+  end /\
+  map (fun r => match r with
+                | Ok it => Some (Qred (TM.io_start it), Qred (TM.io_end it), TM.io_conv it, Qred (TM.io_gran it))
+                | _ => None end)
+      (TM.pv_run LMTfm.TfmNum.NumQ 4 (trows StatEx.S) [0; 1; 2] StatEx.B (1 # 2) (1 # 10))
+    = [Some (5 # 16, 5 # 16, true, 1 # 10)%Q].
+Proof. vm_compute. repeat split; reflexivity. Qed.
+
+(* reverse complement on the example: the uniform background is strand-symmetric and the exact tails
+   of the reverse-complemented matrix coincide on the grid (stat_revcomp says: everywhere) *)
+Example stat_example_revcomp :
+  rc5 0%Q StatEx.B = StatEx.B /\
+  map (fun t => Qred (tail_c01 5 (LMPwm.C10.dna_rc None StatEx.S) (rc5 0%Q StatEx.B) t)) [0; 1 # 2; 1; 3 # 2]%Q
+    = map (fun t => Qred (tail_c01 5 StatEx.S StatEx.B t)) [0; 1 # 2; 1; 3 # 2]%Q /\
+  map (map StatEx.qr) (LMPwm.C10.dna_rc None StatEx.S) =
+    [[Some 0; Some 0; Some 0; Some 0; None];
+     [Some 0; Some 0; Some (-1 # 2); Some (1 # 2); None];
+     [Some (-1 # 2); Some (-1 # 2); Some 1; Some 0; None]]%Q.
+Proof. vm_compute. repeat split; reflexivity. Qed.
+
+(* a threshold from a p-value on the example: ScoreDistribution::score(1/4) = 0.502 (one table step
+   above 1/2), and T(t + dd) = 3/16 <= 1/4 as stat_threshold_scan_meme_partial uses it *)
+Example stat_example_threshold :
+  match DMo.build DI.QOps (dmat StatEx.S) StatEx.B with
+  | Ok d => match DMo.d_score DI.QOps d (1 # 4) with
+            | Ok t => Qred t = (251 # 500)%Q /\
+                      Qred (tail_c01 5 StatEx.S StatEx.B (t + (inject_Z 3 / 2 + 1) / 500)) = (3 # 16)%Q
+            | _ => False end
+  | _ => False
+  end.
+Proof. vm_compute. split; reflexivity. Qed.
+
+(* the example counts as a JASPAR 2016 file ("# x", then ">m1" and five symbol lines), split into
+   chunks of uneven sizes and read with a 7-byte buffer: one record with the counts, then End *)
+Module IoEx.
+  Definition y : LMIo.IoPrint.style :=
+    {| LMIo.IoPrint.y_crlf := false; LMIo.IoPrint.y_hsep := [32%N]; LMIo.IoPrint.y_lead := [32%N];
+       LMIo.IoPrint.y_sep := [32%N; 9%N]; LMIo.IoPrint.y_sym := [32%N]; LMIo.IoPrint.y_tail := [32%N];
+       LMIo.IoPrint.y_post := []; LMIo.IoPrint.y_gap := 0 |}.
+  Definition id : list N := [109; 49]%N.
+  Definition bytes : list N :=
+    LMIo.IoPrint.print_file LMIo.IoPrint.print_jaspar16 [35; 32; 120; 10]%N [(y, src_of id None StatEx.counts)] [10%N].
+  Definition chunks : LMIo.IoBase.stream := [firstn 5 bytes; firstn 17 (skipn 5 bytes); skipn 22 bytes].
+End IoEx.
+
+Example stat_example_io :
+  counts_ok StatEx.counts /\ LMIo.IoPrint.wf_style IoEx.y = true /\ LMIo.IoPrint.wf_id IoEx.id = true /\
+  LMIo.IoBase.stream_bytes IoEx.chunks = IoEx.bytes /\
+  match LMIo.IoJaspar.jaspar16_read LMIo.IoJaspar.Dna (fun _ => 7) IoEx.chunks with
+  | [Ok (Some r); Ok None] => LMIo.IoJaspar.rmatrix r = StatEx.counts /\ LMIo.IoJaspar.rid r = IoEx.id
+  | _ => False
+  end.
+Proof.
+  split.
+  { split; [cbn; lia|]. unfold StatEx.counts.
+    repeat (constructor; [split; [reflexivity|repeat (constructor; [vm_compute; discriminate|]); constructor]|]).
+    constructor. }
+  vm_compute. repeat split; reflexivity.
+Qed.
